@@ -18,7 +18,7 @@ def _scalar_or_tuple(data, d, lo, hi, label, allow_scalar=True):
 
 
 def draw_conv_options(data, d, symmetric_only=False, unit_stride=False, max_filter=4, max_extra=3, max_ext=None,
-                      pad_kinds=None, allow_lhs=True):
+                      pad_kinds=None, allow_lhs=True, fixed_fshape=None, max_stride=3):
     """Returns a JSON-able dict:
     fshape, padding (str|int|list of pairs|None), pad_kind, is_torus (bool|list), stride, rhs, lhs (None|list), shape."""
     kinds = pad_kinds or [k for k in PAD_KINDS if not (symmetric_only and k == "explicit_asym")]
@@ -26,7 +26,9 @@ def draw_conv_options(data, d, symmetric_only=False, unit_stride=False, max_filt
     literal = pad_kind in ("int", "explicit_sym", "explicit_asym")
     # filter extents: even only with literal padding
     fform = data.draw(st.sampled_from(["odd_square", "odd", "any", "any"] if literal else ["odd_square", "odd_square", "odd"]), label="filter_form")
-    if fform == "odd_square":
+    if fixed_fshape is not None:
+        fshape = list(fixed_fshape)
+    elif fform == "odd_square":
         m = data.draw(st.sampled_from([1, 3, 3, 3] if max_filter < 5 else [1, 3, 3, 5]), label="M")
         fshape = [m] * d
     elif fform == "odd":
@@ -40,7 +42,7 @@ def draw_conv_options(data, d, symmetric_only=False, unit_stride=False, max_filt
         is_torus = False
     else:
         is_torus = [data.draw(st.booleans(), label="torus_ax") for _ in range(d)]
-    stride = 1 if unit_stride else _scalar_or_tuple(data, d, 1, 3, "stride")
+    stride = 1 if unit_stride else _scalar_or_tuple(data, d, 1, max_stride, "stride")
     rhs = _scalar_or_tuple(data, d, 1, 3, "rhs")
     lhs = None
     if allow_lhs and data.draw(st.integers(0, 3), label="use_lhs") == 0:
